@@ -9,10 +9,12 @@ import (
 	"fmt"
 	"hash/fnv"
 	"os"
+	"os/exec"
 	"path/filepath"
 	"runtime"
 	"runtime/debug"
 	"sort"
+	"strconv"
 	"strings"
 	"sync"
 	"sync/atomic"
@@ -43,6 +45,12 @@ type Family struct {
 	// reported under the signature <family>:<kind>:<class> (the frame at which a stack
 	// overflow happens to trip is not stable, the input class is).
 	CrashClass func(i int64) string
+	// HangAfter, if > 0, arms the stall detector: a case that runs longer than this is
+	// re-run alone in fresh subprocesses (each allowed 3x HangAfter); if it never
+	// finishes there either it is reported as <family>:hang:<class>. It is set only on
+	// families whose cases take milliseconds (the evidence reports max_case_s, so the
+	// margin is visible), never used as a performance oracle.
+	HangAfter time.Duration
 }
 
 // A Check is everything registered for one property.
@@ -52,6 +60,8 @@ type Check struct {
 	Rule        string
 	Assumptions []string
 	Families    func(tier string) []*Family
+	// HangAfter is the default stall threshold of the check's families (0 = none).
+	HangAfter time.Duration
 }
 
 // Failure is one observed disagreement between implementation and oracle.
@@ -192,28 +202,29 @@ func PanicSite(stack string) string {
 // ---------------------------------------------------------------------------
 
 type famStat struct {
-	Name       string `json:"family"`
-	Desc       string `json:"space"`
-	N          int64  `json:"size"`
-	Done       int64  `json:"executed"`
-	Nontrivial int64  `json:"nontrivial"`
-	Exhaustive bool   `json:"exhaustive"`
+	Name       string  `json:"family"`
+	Desc       string  `json:"space"`
+	N          int64   `json:"size"`
+	Done       int64   `json:"executed"`
+	Nontrivial int64   `json:"nontrivial"`
+	Exhaustive bool    `json:"exhaustive"`
 	WallS      float64 `json:"wall_s"`
+	MaxCaseS   float64 `json:"max_case_s,omitempty"`
 }
 
 type result struct {
-	fams      []famStat
-	failures  map[string]*Failure // by signature, smallest (family order, index)
-	famOrder  map[string]int
-	obs       map[string]struct{}
-	states    int64
-	trans     int64
-	traces    int64
-	evals     int64
-	nontriv   int64
-	samples   []any
-	exhaust   bool
-	mu        sync.Mutex
+	fams     []famStat
+	failures map[string]*Failure // by signature, smallest (family order, index)
+	famOrder map[string]int
+	obs      map[string]struct{}
+	states   int64
+	trans    int64
+	traces   int64
+	evals    int64
+	nontriv  int64
+	samples  []any
+	exhaust  bool
+	mu       sync.Mutex
 }
 
 func (r *result) addFailure(f Failure) {
@@ -310,16 +321,50 @@ func runFamily(c *Check, f *Family, tier string, res *result, deadline time.Time
 			res.mu.Unlock()
 		}
 	}
+	hangAfter := f.HangAfter
+	if hangAfter == 0 {
+		hangAfter = c.HangAfter
+	}
+	var maxCase int64 // nanoseconds
+	timed := func(i int64) {
+		t0 := time.Now()
+		one(i)
+		d := int64(time.Since(t0))
+		for {
+			m := atomic.LoadInt64(&maxCase)
+			if d <= m || atomic.CompareAndSwapInt64(&maxCase, m, d) {
+				break
+			}
+		}
+	}
+	hung := false
 	if only >= 0 {
-		one(only)
+		if hangAfter > 0 {
+			fin := make(chan struct{})
+			go func() { timed(only); close(fin) }()
+			select {
+			case <-fin:
+			case <-time.After(3 * hangAfter):
+				hung = true
+				res.addFailure(hangFailure(c, f, only, 3*hangAfter))
+			}
+		} else {
+			timed(only)
+		}
 	} else {
+		cur := make([]int64, workers)   // index+1 of the case a worker is running, 0 = none
+		began := make([]int64, workers) // when it started (unix nanoseconds)
+		var stop int32
 		for w := 0; w < workers; w++ {
 			wg.Add(1)
-			go func() {
+			go func(w int) {
 				defer wg.Done()
 				for {
 					if time.Now().After(deadline) {
 						atomic.StoreInt32(&timedOut, 1)
+						return
+					}
+					if atomic.LoadInt32(&stop) != 0 {
 						return
 					}
 					lo := atomic.AddInt64(&next, chunk) - chunk
@@ -331,13 +376,60 @@ func runFamily(c *Check, f *Family, tier string, res *result, deadline time.Time
 						hi = n
 					}
 					for i := lo; i < hi; i++ {
-						one(i)
+						atomic.StoreInt64(&began[w], time.Now().UnixNano())
+						atomic.StoreInt64(&cur[w], i+1)
+						timed(i)
+						atomic.StoreInt64(&cur[w], 0)
 					}
 				}
-			}()
+			}(w)
 		}
-		wg.Wait()
+		fin := make(chan struct{})
+		go func() { wg.Wait(); close(fin) }()
+		if hangAfter <= 0 {
+			<-fin
+		} else {
+			// stall detector
+			cleared := map[int64]time.Duration{}
+			tick := time.NewTicker(time.Second)
+		watch:
+			for {
+				select {
+				case <-fin:
+					break watch
+				case <-tick.C:
+					for w := range cur {
+						i := atomic.LoadInt64(&cur[w]) - 1
+						if i < 0 {
+							continue
+						}
+						el := time.Since(time.Unix(0, atomic.LoadInt64(&began[w])))
+						thr := hangAfter
+						if t, ok := cleared[i]; ok {
+							thr = t
+						}
+						if el <= thr || atomic.LoadInt64(&cur[w])-1 != i {
+							continue
+						}
+						if confirmHang(c, f, tier, i, 3*hangAfter) {
+							res.addFailure(hangFailure(c, f, i, 3*hangAfter))
+							hung = true
+							atomic.StoreInt32(&stop, 1)
+							break watch
+						}
+						cleared[i] = el + 10*hangAfter // finished on its own when run alone: slow, not stuck
+					}
+				}
+			}
+			tick.Stop()
+		}
 	}
+	done = atomic.LoadInt64(&done)
+	nontriv = atomic.LoadInt64(&nontriv)
+	if hung {
+		atomic.StoreInt32(&timedOut, 1)
+	}
+	st.MaxCaseS = float64(atomic.LoadInt64(&maxCase)) / 1e9
 	st.Done = done
 	st.Nontrivial = nontriv
 	st.Exhaustive = done == n && timedOut == 0
@@ -348,6 +440,48 @@ func runFamily(c *Check, f *Family, tier string, res *result, deadline time.Time
 	res.trans += trans
 	res.traces += traces
 	return st
+}
+
+func hangClass(f *Family, i int64) string {
+	if f.CrashClass != nil {
+		return f.CrashClass(i)
+	}
+	return "case"
+}
+
+func hangFailure(c *Check, f *Family, i int64, limit time.Duration) Failure {
+	return Failure{Property: c.ID, Sig: f.Name + ":hang:" + hangClass(f, i), Family: f.Name, Index: i,
+		Input:    fmt.Sprintf("family %s case %d (the replay index addresses the generated input)", f.Name, i),
+		Expected: "the call returns (cases of this family take milliseconds)",
+		Observed: fmt.Sprintf("still running after %v, also when re-run alone in fresh processes", limit)}
+}
+
+// confirmHang re-runs case i alone in two fresh subprocesses, each allowed limit; it is
+// a hang only if neither finishes.
+func confirmHang(c *Check, f *Family, tier string, i int64, limit time.Duration) bool {
+	exe, err := os.Executable()
+	if err != nil {
+		return false
+	}
+	tmp, err := os.MkdirTemp("", "mchang")
+	if err != nil {
+		return false
+	}
+	defer os.RemoveAll(tmp)
+	for k := 0; k < 2; k++ {
+		cc := exec.Command(exe, c.ID, tier, "--family", f.Name, "--shard", "0/1", "--only", strconv.FormatInt(i, 10), "--out", filepath.Join(tmp, fmt.Sprintf("o%d", k)))
+		killed := int32(0)
+		if err := cc.Start(); err != nil {
+			return false
+		}
+		ct := time.AfterFunc(limit, func() { atomic.StoreInt32(&killed, 1); cc.Process.Kill() })
+		cc.Wait()
+		ct.Stop()
+		if atomic.LoadInt32(&killed) == 0 {
+			return false
+		}
+	}
+	return true
 }
 
 // ---------------------------------------------------------------------------
